@@ -1,11 +1,13 @@
 (* C04 -- LP/QP primal-dual interior point: `converged` means feasible and optimal as stated.
    Theorems about the executable model of C04_Defs (exact rationals; all programs, points, multipliers). The
    decisions [feasible_dec], [converged_dec], [status_dec] are the expressions of src/program/solver.cpp translated
-   on every run (LNGen.Src_c04). What is *not* proved here (the Newton iteration, Eigen's row reduction, rounding)
-   is listed in notes/C04.md and searched on the implementation. *)
+   on every run (LNGen.Src_c04). What is *not* proved here (the Newton iteration, that Eigen's fullPivLu returns a
+   factorisation, rounding) is listed in notes/C04.md and searched on the implementation.
+   The last two groups bring program::reduce (the reduced equality system assembled from an LU factorisation given as an
+   oracle answer, C04_Reduce.v) and the step-length kernel of the Newton iteration (C04_Step.v) inside the model. *)
 From Coq Require Import List ZArith QArith Qminmax Qabs Bool Lia Lqa.
 From LNGen Require Import Src_c04.
-From LN Require Import C04_Defs C04_Proofs.
+From LN Require Import C04_Defs C04_Proofs C04_Reduce C04_ReduceProofs C04_Step C04_StepProofs.
 Import ListNotations.
 Local Open Scope Q_scope.
 
@@ -178,4 +180,126 @@ Qed.
 (* the internal feasibility test is satisfiable and is really transferred *)
 Example C04_nonvacuous_transfer :
   feasible_dec (normalizeP 2 2 1 P0) y0 (1 # 100) = true /\ user_feasible_b P0 y0 ((1 # 100) * 2) ((1 # 100) * 1) = true.
+Proof. split; vm_compute; reflexivity. Qed.
+
+(* ==== program::reduce: dependent equality rows are eliminated without changing the solution set ======================= *)
+(* [lu_valid M r c f]: f = (P, Q, L, U, rank) is a full-pivoting LU factorisation of M^T, P M^T Q = L U exactly, P and Q
+   permutations (index lists), U upper triangular with `rank` non-zero pivots and zero rows below, L unit lower triangular.
+   Hypothesis about Q: only that it is a permutation of the r rows of [A|b]. Q does not occur in the product the code forms
+   (U^T.block(0,0,rank,n) * L^T * P): that product consists of the rows q_0 .. q_{rank-1} of [A|b] themselves
+   (C04_ReduceProofs.assemble_entry), Q only names them, and the order of equations does not matter for a solution set. *)
+
+(* (1) the solution set is exactly preserved: every theorem about the reduced program is a theorem about the caller's *)
+Theorem C04_reduce_same_solutions : forall A b ncols f,
+  rows_ok ncols A -> length b = length A ->
+  lu_valid (stack A b) (length A) (S ncols) f ->
+  forall x, length x = ncols ->
+    (sat A b x <-> sat (reduced_A A b ncols f) (reduced_b A b ncols f) x).
+Proof. exact reduce_same_solutions. Qed.
+Print Assumptions C04_reduce_same_solutions.
+
+(* (2) dropping dependent rows never turns an infeasible equality system feasible (b is reduced together with A) *)
+Theorem C04_reduce_inconsistent_preserved : forall A b ncols f,
+  rows_ok ncols A -> length b = length A ->
+  lu_valid (stack A b) (length A) (S ncols) f ->
+  (forall x, length x = ncols -> ~ sat A b x) ->
+  forall x, length x = ncols -> ~ sat (reduced_A A b ncols f) (reduced_b A b ncols f) x.
+Proof. exact reduce_inconsistent_preserved. Qed.
+Print Assumptions C04_reduce_inconsistent_preserved.
+
+(* (3) rank = rows: the early return, the system is returned as it is (flag: false only for an empty system) *)
+Theorem C04_reduce_full_rank_identity : forall A b ncols f,
+  rows_ok ncols A -> length b = length A -> lu_rank f = length A ->
+  reduce_model A b ncols f = (negb (Nat.eqb (length A) 0), (A, b)).
+Proof. exact reduce_full_rank_identity. Qed.
+Print Assumptions C04_reduce_full_rank_identity.
+
+(* when rows are removed exactly `rank` rows remain *)
+Theorem C04_reduce_row_count : forall A b ncols f, length A <> 0%nat -> lu_rank f <> length A ->
+  length (reduced_A A b ncols f) = lu_rank f /\ length (reduced_b A b ncols f) = lu_rank f.
+Proof. exact reduce_row_count. Qed.
+Print Assumptions C04_reduce_row_count.
+
+(* the kept rows [A'|b'] are linearly independent (the only place where L unit lower triangular is used): the KKT matrix
+   the solver factorises afterwards is built from a full-row-rank equality block *)
+Theorem C04_reduce_rows_independent : forall M r c f,
+  shape M r c -> lu_valid M r c f -> lu_rank f <> r ->
+  forall w : nat -> Q,
+    (forall col, (col < c)%nat -> sum_upto (lu_rank f) (fun i => w i * entry (reduce_sys M r c f) i col) == 0) ->
+    forall i, (i < lu_rank f)%nat -> w i == 0.
+Proof. intros M r c f Hs Hv E. exact (reduce_rows_independent M r c f Hv E). Qed.
+Print Assumptions C04_reduce_rows_independent.
+
+(* the hypothesis is decidable: the test the driver evaluates on the factors Eigen returned implies it *)
+Theorem C04_reduce_valid_checkable : forall M r c f, lu_valid_b M r c f = true -> lu_valid M r c f.
+Proof. exact lu_valid_b_sound. Qed.
+Print Assumptions C04_reduce_valid_checkable.
+
+(* x1 + x2 = 1, 2 x1 + 2 x2 = 2, x1 = 0 with the factorisation Eigen returns for [A|b]^T (rank 2): rows 2 and 3 are kept *)
+Definition Ared : mat := [[1; 1]; [2; 2]; [1; 0]].
+Definition bred : vec := [1; 2; 0].
+Definition fred : lufact :=
+  mkLU [0; 1; 2]%nat [1; 2; 0]%nat [[1; 0; 0]; [1; 1; 0]; [1; 1; 1]] [[2; 1; 1]; [0; -1; 0]; [0; 0; 0]] 2.
+
+Example C04_nonvacuous_reduce_valid : lu_valid (stack Ared bred) (length Ared) 3 fred.
+Proof. apply C04_reduce_valid_checkable. vm_compute. reflexivity. Qed.
+
+Example C04_nonvacuous_reduce_rows : length (reduced_A Ared bred 2 fred) = 2%nat /\ sat_b (reduced_A Ared bred 2 fred) (reduced_b Ared bred 2 fred) [0; 1] = true.
+Proof. split; vm_compute; reflexivity. Qed.
+
+Example C04_nonvacuous_reduce_solution : sat Ared bred [0; 1] /\ sat (reduced_A Ared bred 2 fred) (reduced_b Ared bred 2 fred) [0; 1].
+Proof.
+  assert (sat Ared bred [0; 1]) as H by (repeat constructor).
+  split; [exact H|].
+  apply (C04_reduce_same_solutions Ared bred 2 fred); try reflexivity; try exact H.
+  - repeat constructor.
+  - exact C04_nonvacuous_reduce_valid.
+Qed.
+
+(* an inconsistent right-hand side (2 x1 + 2 x2 = 3) is a rank-3 system: nothing is dropped, nothing becomes feasible *)
+Example C04_nonvacuous_reduce_inconsistent : forall x, length x = 2%nat -> ~ sat Ared [1; 3; 0] x.
+Proof.
+  intros [|x1 [|x2 [|? ?]]] Hl H; try discriminate.
+  inversion H as [|? ? ? ? H1 H']; subst. inversion H' as [|? ? ? ? H2 H'']; subst. simpl in H1, H2. lra.
+Qed.
+
+(* ==== the step-length kernel keeps the multipliers strictly positive =================================================== *)
+(* u > 0, DBL_MAX > 0, 0 < s0 < 1 (solver::s0, default 0.999), 0 < beta <= 1, any number of shrinks in the two stages: the
+   new multipliers u + s du are strictly positive -- the invariant u >= 0 that the gap theorems assume of the returned state *)
+Theorem C04_step_keeps_positive : forall big s0 beta u du k1 k2,
+  0 < big -> Forall (fun t => 0 < t) u -> length du = length u ->
+  0 < s0 -> s0 < 1 -> 0 < beta -> beta <= 1 ->
+  Forall (fun t => 0 < t) (step_point u du (step_len big s0 beta u du k1 k2)).
+Proof. exact step_keeps_positive. Qed.
+Print Assumptions C04_step_keeps_positive.
+
+Theorem C04_step_bounds : forall big s0 beta u du k1 k2,
+  0 < big -> Forall (fun t => 0 < t) u -> 0 < s0 -> 0 < beta -> beta <= 1 ->
+  0 < step_len big s0 beta u du k1 k2 /\ step_len big s0 beta u du k1 k2 <= s0 * make_smax big u du /\ make_smax big u du <= 1.
+Proof.
+  intros big s0 beta u du k1 k2 Hb Hu Hs0 Hbe Hbe1.
+  destruct (step_len_spec big s0 beta u du k1 k2 Hb (Forall_nth_pos u Hu) Hs0 Hbe Hbe1) as [H1 H2].
+  destruct (make_smax_spec big u du Hb (Forall_nth_pos u Hu)) as [_ [H3 _]].
+  repeat split; assumption.
+Qed.
+Print Assumptions C04_step_bounds.
+
+(* solver::s0 = 1 is inside the registered range (0 < s0 <= 1): then only u + s du >= 0 holds ... *)
+Theorem C04_step_keeps_nonneg : forall big s0 beta u du k1 k2,
+  0 < big -> Forall (fun t => 0 < t) u -> length du = length u ->
+  0 < s0 -> s0 <= 1 -> 0 < beta -> beta <= 1 ->
+  forall i, (i < length u)%nat -> 0 <= nth i u 0 + step_len big s0 beta u du k1 k2 * nth i du 0.
+Proof. exact step_keeps_nonneg. Qed.
+Print Assumptions C04_step_keeps_nonneg.
+
+(* ... and strict positivity is false of the faithful model: u = 1, du = -1, s0 = 1 steps onto the boundary *)
+Theorem C04_step_strict_with_s0_one_refuted :
+  exists u du, Forall (fun t => 0 < t) u /\ length du = length u /\
+               step_point u du (step_len 2 1 (9 # 10) u du 0 0) = [0 # 1].
+Proof. exact step_boundary_witness. Qed.
+Print Assumptions C04_step_strict_with_s0_one_refuted.
+
+Example C04_nonvacuous_step :
+  all_pos_b (step_point [1; 2] [-(4); 1] (step_len 1000 (999 # 1000) (9 # 10) [1; 2] [-(4); 1] 1 2)) = true
+  /\ step_len 1000 (999 # 1000) (9 # 10) [1; 2] [-(4); 1] 0 0 == (999 # 4000).
 Proof. split; vm_compute; reflexivity. Qed.
